@@ -293,6 +293,13 @@ impl<'a> Gen<'a> {
                 s.msgs.push(Sub { id: i, mode: RMode::Never, payload: Payload::Raw(Binary::default()), msg: Msg::BankSend { to: to.clone(), coins: vec![coin(1, "ua")] } });
             }
         }
+        // now and then a response creates a contract and uses it in later sibling messages
+        if depth_left > 0 && self.pct(2) {
+            for (i, msg) in self.create_then_use(m, me).into_iter().enumerate() {
+                let mode = *self.rng.pick(&[RMode::Never, RMode::Never, RMode::Success, RMode::Always]);
+                s.msgs.push(Sub { id: 700 + i as u64, mode, payload: Payload::Raw(Binary::from(vec![2u8])), msg });
+            }
+        }
         if depth_left > 0 && self.nodes_left > 0 {
             let n = self.rng.below(self.p.fanout + 1);
             for _ in 0..n {
@@ -434,6 +441,32 @@ impl<'a> Gen<'a> {
             10 => CosmosMsg::Gov(cosmwasm_std::GovMsg::Vote { proposal_id: 1, option: cosmwasm_std::VoteOption::Yes }),
             _ => CosmosMsg::Ibc(cosmwasm_std::IbcMsg::CloseChannel { channel_id: "channel-0".into() }),
         }
+    }
+
+    /// Messages that create a contract and then use it within the same batch / the same response: an instantiation
+    /// (plain address derivation) followed by calls to the address it will get — an execute, and now and then a
+    /// migration or an admin change by the admin named in the instantiation.
+    fn create_then_use(&mut self, m: &ChainM, sender: &str) -> Vec<Msg> {
+        let ids: Vec<u64> = m.codes.iter().filter(|(_, c)| c.entry_points == (true, true, true)).map(|(i, _)| *i).collect();
+        if ids.is_empty() {
+            return vec![];
+        }
+        let code_id = *self.rng.pick(&ids);
+        let addr = crate::model::chain::classic_address(m.api, code_id, if m.one_address_per_code { 0 } else { m.st.contracts.len() as u64 });
+        let mut next = |g: &mut Self| {
+            g.tag += 1;
+            g.counter += 1;
+            Script { tag: g.tag, writes: vec![(Binary::from(b"ctu".to_vec()), Some(Binary::from(format!("{}:{}", g.tag, g.counter).into_bytes())))], ..Default::default() }
+        };
+        let mut v = vec![Msg::Inst { code_id, script: Box::new(next(self)), funds: vec![], label: "created-in-this-batch".into(), admin: Some(sender.to_string()), salt: None }];
+        v.push(Msg::Exec { addr: addr.clone(), script: Box::new(next(self)), funds: vec![] });
+        match self.rng.below(4) {
+            0 => v.push(Msg::Migrate { addr: addr.clone(), code_id: *self.rng.pick(&ids), script: Box::new(next(self)) }),
+            1 => v.push(Msg::UpdateAdmin { addr: addr.clone(), admin: self.users[1].clone() }),
+            2 => v.push(Msg::Exec { addr, script: Box::new(next(self)), funds: vec![] }),
+            _ => {}
+        }
+        v
     }
 
     pub fn inst(&mut self, m: &ChainM, sender: &str, depth_left: usize) -> Msg {
@@ -585,7 +618,16 @@ match self.rng.below(8) {
             60..=74 => {
                 let sender = self.sender(m);
                 let n = self.rng.range(1, 4);
-                let msgs = (0..n).map(|_| self.msg(m, &sender, depth.min(3))).collect();
+                let mut msgs: Vec<Msg> = (0..n).map(|_| self.msg(m, &sender, depth.min(3))).collect();
+                // now and then the batch creates a contract and uses it (each message sees its predecessors' effects)
+                if self.pct(15) {
+                    let ctu = self.create_then_use(m, &sender);
+                    if self.pct(50) {
+                        msgs = ctu;
+                    } else {
+                        msgs.extend(ctu);
+                    }
+                }
                 Top::Multi { sender, msgs }
             }
             75..=82 => {
